@@ -417,8 +417,11 @@ def run_property(ctx, prop, fams, n_quick, n_thorough, classify=classify_default
     tlc.stage(ctx.work)
     tlc.sany(ctx.work, "Mon_Exec")
     # (A) design level: exhaustive TLC on LokyExecutor.tla slices; (B) spec -> code: TLC behaviours become E-SIM fault plans
-    d17 = exec_model.run_slices(ctx, prop)
-    guided = exec_model.guided_cases(ctx, prop, 150 if ctx.tier == "thorough" else 25, d17)
+    if os.environ.get("VERIF_DEV_SKIP_TLC"):       # development sweeps over many seeds only: never set by registered commands
+        d17, guided = None, []
+    else:
+        d17 = exec_model.run_slices(ctx, prop)
+        guided = exec_model.guided_cases(ctx, prop, 150 if ctx.tier == "thorough" else 25, d17)
     ctx.extra["tlc_guided_cases"] = len(guided)
     extra_cases = (extra_cases or []) + guided
     n = n_thorough if ctx.tier == "thorough" else n_quick
